@@ -133,7 +133,7 @@ func runChild(dir string, race bool, timeout time.Duration, env []string, mode s
 
 var (
 	raceSplit  = regexp.MustCompile(`(?m)^={18}\n`)
-	frameRe    = regexp.MustCompile(`(?m)^\s+([^\s(]+)\(`)
+	frameRe    = regexp.MustCompile(`(?m)^\s+(\S+)\(\)\s*$`)
 	lineNumRe  = regexp.MustCompile(`:\d+( \+0x[0-9a-f]+)?`)
 	hexRe      = regexp.MustCompile(`0x[0-9a-f]+`)
 	goroutineN = regexp.MustCompile(`[Gg]oroutine \d+`)
